@@ -3,7 +3,8 @@
 
   Property theorems only. Models: GeoModel/Closest.lean (`Geo.CP`), GeoModel/InteriorPoint.lean
   (`Geo.IP`). Helper layers: GeoProofs/Lemmas/C12{Line,Fold,Closest,Interior}.lean and
-  C12Q{Cross,Scan,Simple,Fold,Valid}.lean (crossing structure of the scan line).
+  C12Q{Cross,Scan,Simple,Fold,Valid}.lean (crossing structure of the scan line), WIND*.lean (winding
+  jump across an edge, Jordan-curve property of a simple ring, cross-ring facts of a valid polygon).
 
   closest_point: `Spec p H L c` (Lemmas/C12Line) says what an answer `c` must satisfy w.r.t. the
   hit condition `H` and the candidate locus `L`; `closest_spec_all` proves it for every geometry
@@ -19,6 +20,7 @@ import GeoProofs.Lemmas.C12QScan
 import GeoProofs.Lemmas.C12QSimple
 import GeoProofs.Lemmas.C12QFold
 import GeoProofs.Lemmas.C12QValid
+import GeoProofs.Lemmas.WINDJordan
 import Mathlib.Tactic.NormNum
 
 namespace Geo.Proofs.C12
@@ -346,12 +348,12 @@ theorem interior_polygon_on_geometry (loc : Pt → Pos) (poly : Poly) (x : Pt) (
      ∀ valid poly, ∃ x w, polyScan (locate (.polygon poly)) poly = some (x, w) ∧ locate (.polygon poly) x = .inside
    It needs: a horizontal line strictly between two vertex ordinates meets the interior of a valid
    polygon in an interval of positive width whose midpoint is off the boundary. That existence
-   statement is PROVED below for hole-free polygons with a simple exterior ring
-   (`interior_strict_ringSimple`, `interior_polygon_inside_simple`; no further hypothesis) and for
-   `polyValid` polygons with holes under three explicit cross-ring hypotheses
-   (`interior_strict_valid_partial`); for the remaining part the correspondence ties it down (tag
-   `vertex-fallback` never appears on valid input, and the checker demands `Inside` of the
-   implementation's point). -/
+   statement is PROVED below: for hole-free polygons with a simple exterior ring
+   (`interior_strict_ringSimple`, `interior_polygon_inside_simple`), for `polyValid` polygons with
+   holes under three explicit cross-ring hypotheses (`interior_strict_valid_partial`), and — the
+   hypotheses discharged from `polyValid` through the winding-number theory of Lemmas/WIND*.lean — for
+   EVERY OGC-valid polygon (`interior_strict_valid`, `interior_polygon_inside_valid`,
+   `interior_multipolygon_inside_valid`). -/
 /-- [Tp] `interior_strict_partial`: *if* no scan midpoint lies on the boundary and some scan
 midpoint is `Inside`, the returned point is `Inside`. -/
 theorem interior_strict_partial (loc : Pt → Pos) (poly : Poly) (mn mx : Pt)
@@ -958,10 +960,11 @@ example : ∃ x w, polyScan (locate (.polygon ⟨[⟨0, 0⟩, ⟨6, 0⟩, ⟨6, 
 /- Full statement: `polyValid poly = true → getBoundingRect poly.ext = some (mn, mx) → …` (the model's
    `interior_point` of every OGC-valid polygon is `Inside`). Derived from `polyValid` here: every ring
    simple and closed, shell bounding box proper, crossings of one ring pairwise distinct, hole
-   coordinates inside the shell's bounding box (clause `BE = F` of the hole/shell matrix). NOT derived
-   (they need the topology of the arrangement, not only point location): two different rings do not
-   cross the scan line at the same abscissa (they could only meet there off their vertices), and the
-   shell winds around the points where holes cross the scan line. -/
+   coordinates inside the shell's bounding box (clause `BE = F` of the hole/shell matrix). Not derived
+   in this theorem (they need the topology of the arrangement, not only point location): two different
+   rings do not cross the scan line at the same abscissa (they could only meet there off their
+   vertices), and the shell winds around the points where holes cross the scan line. They ARE derived
+   from `polyValid` in `valid_scan_crossings` below, which gives `interior_strict_valid`. -/
 /-- [Tp] `interior_strict_valid_partial`: an OGC-valid polygon (`polyValid`) with holes, under the
 three explicit cross-ring hypotheses above: the model's `interior_point` is `Inside`. -/
 theorem interior_strict_valid_partial (poly : Poly) (mn mx : Pt)
@@ -1158,6 +1161,160 @@ example : ∃ x, interior (fun _ _ => 1) (fun q => locate (.polygon q))
     locate (.multiPolygon [⟨[⟨0, 0⟩, ⟨1, 0⟩, ⟨1, 1⟩, ⟨0, 0⟩], []⟩,
         ⟨[⟨5, 0⟩, ⟨9, 0⟩, ⟨9, 4⟩, ⟨5, 4⟩, ⟨5, 0⟩], []⟩]) x = .inside :=
   interior_multipolygon_inside_simple _ _ (by simp) (by decide +kernel)
+
+/-! ### WIND: every OGC-valid polygon — the cross-ring hypotheses discharged -/
+
+/-- [T] `ring_edge_one_side_outside` (Jordan-curve property of a simple ring, in the form the scan
+needs): beside every point `P` of a simple ring that is not one of its coordinates, one of the two
+face samples `P ± δ·n` of the specification has winding number `0` (and the other one `±1`,
+`Geo.Proofs.WIND.windingE_jump`): one side of every edge is outside. Proved by walking the left face
+sample along the ring (`edge_step`, `vertex_step`: the remaining edges contribute potential
+differences that telescope, so no smallness argument is needed) and evaluating it at the left-most
+crossing of a level. -/
+theorem ring_edge_one_side_outside (r : List Pt) (hs : ringSimple r = true) (a b P : Pt)
+    (hab : (a, b) ∈ segs r) (hP : SegMem P a b) (hnv : P ∉ r) :
+    windingE ⟨P.x, -(b.y - a.y), P.y, b.x - a.x⟩ r = 0 ∨
+      windingE ⟨P.x, - -(b.y - a.y), P.y, -(b.x - a.x)⟩ r = 0 :=
+  Geo.Proofs.WIND.edgeJordan hs hab hP hnv
+
+example : windingE ⟨2, -(0 - 0), 0, 4 - 0⟩ [⟨0, 0⟩, ⟨4, 0⟩, ⟨0, 4⟩, ⟨0, 0⟩] = 0 ∨
+    windingE ⟨2, - -(0 - 0), 0, -(4 - 0)⟩ [⟨0, 0⟩, ⟨4, 0⟩, ⟨0, 4⟩, ⟨0, 0⟩] = 0 :=
+  ring_edge_one_side_outside _ (by decide +kernel) ⟨0, 0⟩ ⟨4, 0⟩ ⟨2, 0⟩ (by simp [segs])
+    ⟨1 / 2, by norm_num, by norm_num, by norm_num, by norm_num⟩ (by decide)
+
+/-- [T] `valid_scan_crossings`: on a level that is the ordinate of no coordinate of an OGC-valid
+polygon, (i) no hole crossing is a shell crossing, (ii) the crossings of two different holes are
+disjoint, (iii) the shell winds around every hole crossing — the three cross-ring hypotheses of
+`interior_strict_valid_partial`, from `polyValid` alone (`BE = F`, `BB ≤ 0` of the hole/shell clause
+with the Jordan-curve property of the shell; `II = F`, `BB ≤ 0` of the hole-pair clause). -/
+theorem valid_scan_crossings (poly : Poly) (hv : polyValid poly = true) (y : Rat)
+    (hy : ∀ v ∈ poly.coords, v.y ≠ y) :
+    (∀ hole ∈ poly.ints, ∀ t ∈ (segs hole).flatMap (crossXs y),
+        t ∉ (segs poly.ext).flatMap (crossXs y)) ∧
+    poly.ints.Pairwise (fun h1 h2 => ∀ t ∈ (segs h1).flatMap (crossXs y),
+        t ∉ (segs h2).flatMap (crossXs y)) ∧
+    (∀ hole ∈ poly.ints, ∀ t ∈ (segs hole).flatMap (crossXs y),
+        windingE (EPt.ofPt ⟨t, y⟩) poly.ext ≠ 0) :=
+  ⟨Geo.Proofs.WIND.valid_hole_shell_disjoint hv hy,
+    Geo.Proofs.WIND.valid_hole_crossings_disjoint hv hy,
+    Geo.Proofs.WIND.valid_shell_winds hv hy⟩
+
+example : ∀ hole ∈ [[⟨2, 2⟩, ⟨2, 5⟩, ⟨4, 5⟩, ⟨4, 2⟩, (⟨2, 2⟩ : Pt)]],
+    ∀ t ∈ (segs hole).flatMap (crossXs 3),
+      t ∉ (segs [⟨0, 0⟩, ⟨6, 0⟩, ⟨6, 6⟩, ⟨0, 6⟩, (⟨0, 0⟩ : Pt)]).flatMap (crossXs 3) :=
+  (valid_scan_crossings ⟨[⟨0, 0⟩, ⟨6, 0⟩, ⟨6, 6⟩, ⟨0, 6⟩, ⟨0, 0⟩],
+    [[⟨2, 2⟩, ⟨2, 5⟩, ⟨4, 5⟩, ⟨4, 2⟩, ⟨2, 2⟩]]⟩ (by decide +kernel) 3 (by decide +kernel)).1
+
+/-- [T] **`interior_strict_valid`: the model's `interior_point` scan of every OGC-valid polygon
+(`polyValid`, holes included) returns a point that is strictly `Inside`** — the full statement behind
+`interior_strict_partial` / `interior_strict_valid_partial`, no hypothesis besides validity. -/
+theorem interior_strict_valid (poly : Poly) (mn mx : Pt) (hv : polyValid poly = true)
+    (hb : getBoundingRect poly.ext = some (mn, mx)) :
+    ∃ x w, polyScan (locate (.polygon poly)) poly = some (x, w) ∧
+      locate (.polygon poly) x = .inside := by
+  obtain ⟨hsimple, hclosed, ⟨hx, hyy⟩, hin⟩ := valid_scan_facts hv hb
+  obtain ⟨hbd, _, _, ⟨pl, hpl, hply⟩, ⟨ph, hph, hphy⟩⟩ :=
+    Geo.Proofs.C19.getBoundingRect_bounds poly.ext mn mx hb
+  have hextc : ∀ v ∈ poly.ext, v ∈ poly.coords := fun v hv => by
+    unfold Poly.coords; exact List.mem_append_left _ hv
+  have hy := yMid_avoids_vertices mn mx poly.coords ⟨pl, hextc _ hpl, by rw [hply]; linarith⟩
+  have hxb : ∀ v ∈ poly.coords, mn.x ≤ v.x ∧ v.x ≤ mx.x := fun v hv => (hin v hv).1
+  obtain ⟨c1, c2, c3⟩ := valid_scan_crossings poly hv _ hy
+  have hext_r : poly.ext ∈ poly.rings := by simp [Poly.rings]
+  have hhole_r : ∀ hole ∈ poly.ints, hole ∈ poly.rings := fun hole hh => by simp [Poly.rings, hh]
+  have hre := fun {r : List Pt} (hr : r ∈ poly.rings) =>
+    ring_hits_eq poly mn.x mx.x (yMid mn mx poly.coords) hy hxb hx hr
+  apply interior_strict_valid_partial poly mn mx hv hb
+  · intro hole hh t ht
+    rw [hre (hhole_r hole hh)] at ht
+    rw [hre hext_r]
+    exact c1 hole hh t ht
+  · refine List.Pairwise.imp_of_mem ?_ c2
+    intro h1 h2 m1 m2 hd t ht
+    rw [hre (hhole_r h1 m1)] at ht
+    rw [hre (hhole_r h2 m2)]
+    exact hd t ht
+  · intro hole hh t ht
+    rw [hre (hhole_r hole hh)] at ht
+    exact c3 hole hh t ht
+
+/-- a square with two holes, one touching the other at a vertex: `polyValid`, and the scan result is
+`Inside` -/
+example : ∃ x w, polyScan (locate (.polygon ⟨[⟨0, 0⟩, ⟨10, 0⟩, ⟨10, 10⟩, ⟨0, 10⟩, ⟨0, 0⟩],
+      [[⟨2, 2⟩, ⟨2, 4⟩, ⟨4, 4⟩, ⟨4, 2⟩, ⟨2, 2⟩], [⟨4, 4⟩, ⟨6, 8⟩, ⟨8, 8⟩, ⟨8, 6⟩, ⟨4, 4⟩]]⟩))
+      ⟨[⟨0, 0⟩, ⟨10, 0⟩, ⟨10, 10⟩, ⟨0, 10⟩, ⟨0, 0⟩],
+      [[⟨2, 2⟩, ⟨2, 4⟩, ⟨4, 4⟩, ⟨4, 2⟩, ⟨2, 2⟩], [⟨4, 4⟩, ⟨6, 8⟩, ⟨8, 8⟩, ⟨8, 6⟩, ⟨4, 4⟩]]⟩ = some (x, w) ∧
+    locate (.polygon ⟨[⟨0, 0⟩, ⟨10, 0⟩, ⟨10, 10⟩, ⟨0, 10⟩, ⟨0, 0⟩],
+      [[⟨2, 2⟩, ⟨2, 4⟩, ⟨4, 4⟩, ⟨4, 2⟩, ⟨2, 2⟩], [⟨4, 4⟩, ⟨6, 8⟩, ⟨8, 8⟩, ⟨8, 6⟩, ⟨4, 4⟩]]⟩) x = .inside :=
+  interior_strict_valid _ ⟨0, 0⟩ ⟨10, 10⟩ (by decide +kernel) (by decide +kernel)
+
+/-- [T] **`interior_polygon_inside_valid`: for every OGC-valid polygon the model's `interior_point`
+exists and is strictly `Inside`.** -/
+theorem interior_polygon_inside_valid (len : Pt → Pt → Rat) (poly : Poly)
+    (hv : polyValid poly = true) :
+    ∃ x, interior len (fun q => locate (.polygon q)) (.polygon poly) = some x ∧
+      locate (.polygon poly) x = .inside := by
+  have hsimple := (polyValid_spec hv).1
+  cases hb : getBoundingRect poly.ext with
+  | none =>
+    exfalso
+    rw [getBoundingRect_eq_none] at hb
+    have := (ringSimple_spec hsimple).2.1
+    rw [hb] at this
+    simp [dedupConsecutive, segs] at this
+  | some r =>
+    obtain ⟨mn, mx⟩ := r
+    obtain ⟨x, w, hs, hi⟩ := interior_strict_valid poly mn mx hv hb
+    exact ⟨x, by simp [interior, polyInterior, hs], hi⟩
+
+example : ∃ x, interior (fun _ _ => 1) (fun q => locate (.polygon q))
+      (.polygon ⟨[⟨0, 0⟩, ⟨6, 0⟩, ⟨6, 6⟩, ⟨0, 6⟩, ⟨0, 0⟩], [[⟨2, 2⟩, ⟨2, 5⟩, ⟨4, 5⟩, ⟨4, 2⟩, ⟨2, 2⟩]]⟩) = some x ∧
+    locate (.polygon ⟨[⟨0, 0⟩, ⟨6, 0⟩, ⟨6, 6⟩, ⟨0, 6⟩, ⟨0, 0⟩],
+      [[⟨2, 2⟩, ⟨2, 5⟩, ⟨4, 5⟩, ⟨4, 2⟩, ⟨2, 2⟩]]⟩) x = .inside :=
+  interior_polygon_inside_valid _ _ (by decide +kernel)
+
+/-- [T] `interior_multipolygon_inside_valid`: for a non-empty `MultiPolygon` whose members are
+OGC-valid polygons the model's `interior_point` exists and is `Inside` (the verified scan midpoint
+of a member of maximal width). -/
+theorem interior_multipolygon_inside_valid (len : Pt → Pt → Rat) (ps : List Poly) (hne : ps ≠ [])
+    (hall : ∀ p ∈ ps, polyValid p = true) :
+    ∃ x, interior len (fun q => locate (.polygon q)) (.multiPolygon ps) = some x ∧
+      locate (.multiPolygon ps) x = .inside := by
+  simp only [interior]
+  cases h : mpolyInterior (fun q => locate (.polygon q)) ps with
+  | none =>
+    exfalso
+    rw [mpolyInterior_eq_none, List.all_eq_true] at h
+    obtain ⟨p, hp⟩ := List.exists_mem_of_ne_nil ps hne
+    have he := h p hp
+    rw [List.isEmpty_iff] at he
+    have := (ringSimple_spec (polyValid_spec (hall p hp)).1).2.1
+    rw [he] at this
+    simp [dedupConsecutive, segs] at this
+  | some x =>
+    refine ⟨x, rfl, ?_⟩
+    obtain ⟨poly, hp, w, hs, _⟩ := mpoly_interior_widest _ ps x h
+    cases hb : getBoundingRect poly.ext with
+    | none =>
+      exfalso
+      rw [getBoundingRect_eq_none] at hb
+      have := (ringSimple_spec (polyValid_spec (hall poly hp)).1).2.1
+      rw [hb] at this
+      simp [dedupConsecutive, segs] at this
+    | some r =>
+      obtain ⟨mn, mx⟩ := r
+      obtain ⟨x', w', hs', hi⟩ := interior_strict_valid poly mn mx (hall poly hp) hb
+      rw [hs] at hs'
+      simp only [Option.some.injEq, Prod.mk.injEq] at hs'
+      rw [← hs'.1] at hi
+      exact locate_multiPolygon_of_member ps poly hp x hi
+
+example : ∃ x, interior (fun _ _ => 1) (fun q => locate (.polygon q))
+      (.multiPolygon [⟨[⟨0, 0⟩, ⟨1, 0⟩, ⟨1, 1⟩, ⟨0, 0⟩], []⟩,
+        ⟨[⟨5, 0⟩, ⟨9, 0⟩, ⟨9, 4⟩, ⟨5, 4⟩, ⟨5, 0⟩], [[⟨6, 1⟩, ⟨6, 3⟩, ⟨8, 3⟩, ⟨8, 1⟩, ⟨6, 1⟩]]⟩]) = some x ∧
+    locate (.multiPolygon [⟨[⟨0, 0⟩, ⟨1, 0⟩, ⟨1, 1⟩, ⟨0, 0⟩], []⟩,
+        ⟨[⟨5, 0⟩, ⟨9, 0⟩, ⟨9, 4⟩, ⟨5, 4⟩, ⟨5, 0⟩], [[⟨6, 1⟩, ⟨6, 3⟩, ⟨8, 3⟩, ⟨8, 1⟩, ⟨6, 1⟩]]⟩]) x = .inside :=
+  interior_multipolygon_inside_valid _ _ (by simp) (by decide +kernel)
 
 /-! ### GeometryCollection: a member of the highest dimension present -/
 
